@@ -556,6 +556,19 @@ def _random_input_case(rng, osh, ssh, fams="abc", costs=None):
     internal = [n for n in nodes_of(spe) if n[2]]
     if internal and rng.random() < 0.3:
         rng.choice(internal)[0] = "S0"
+    # leaves may bear names that look auto-generated too (a species called S0, a gene called O1)
+    if rng.random() < 0.3:
+        lv = [n for n in nodes_of(spe) if not n[2]]
+        used = {n[0] for n in nodes_of(spe)}
+        for n, nm in zip(rng.sample(lv, min(len(lv), 2)), ["S0", "S1"]):
+            if nm not in used:
+                n[0] = nm
+    if rng.random() < 0.3:
+        lv = [n for n in nodes_of(obj) if not n[2]]
+        used = {n[0] for n in nodes_of(obj)}
+        for n, nm in zip(rng.sample(lv, min(len(lv), 2)), ["O0", "O1"]):
+            if nm not in used:
+                n[0] = nm
     sleaves = leaves_of(spe)
     mp = {o: rng.choice(sleaves) for o in leaves_of(obj)}
     syn = {}
@@ -716,6 +729,51 @@ def _solver_cases(rng, quick):
     return cases
 
 
+_E2E: dict = {}      # impl / oracle of the end-to-end batch, for the failing-input search
+
+
+def _search_one(seed):
+    import random
+    rng = random.Random(seed)
+    pool = [sh for n in range(2, 5) for sh in shapes(n)]
+    poly = [s_ for s_ in pool if any(len(x) > 2 for x in _walk(s_))]
+    for _ in range(50):
+        r = rng.random()
+        osh, ssh = (rng.choice(poly), rng.choice(pool)) if r < 0.4 else ((rng.choice(pool), rng.choice(poly)) if r < 0.8 else (rng.choice(poly), rng.choice(poly)))
+        c = _random_input_case(rng, osh, ssh, fams="abc"[:rng.randint(1, 3)], costs=rng.choice([COST_VECTORS[0], COST_VECTORS[0], rng.choice(COST_VECTORS)]))
+        c["solver"] = rng.choice(["spfs", "uspfs"])
+        if double_fact_count(c["object"]) * double_fact_count(c["species"]) <= 45:
+            break
+    res = _E2E["impl"](c)
+    ok, why = _E2E["oracle"](c, res)
+    return c, res, ok, why
+
+
+def search(ctx):
+    """the tie is broken but the generated cases show no wrong optimum: fresh polytomous inputs (default costs twice as
+    often), each judged by the minimum of the same solver over the independent refinement pairs; parallel, time budget"""
+    import multiprocessing as mp
+    import time
+    from .. import core
+    from ..core import Finding
+    if not _E2E:
+        return None
+    t0 = time.time()
+    budget = 150 if ctx.quick() else 900
+    n = 0
+    with mp.get_context("fork").Pool(core.NPROC) as pool:
+        while time.time() - t0 < budget:
+            seeds = [ctx.rng.randrange(1 << 62) for _ in range(320)]
+            for c, res, ok, why in pool.imap_unordered(_search_one, seeds, chunksize=4):
+                n += 1
+                ctx.evaluations += 1
+                if ok is False:
+                    ctx.notes.append(f"failing-input search: violation found after {n} fresh polytomous inputs")
+                    return Finding("extended_solvers", c, res, "(minimum over the independent refinement pairs)", False, why)
+    ctx.notes.append(f"failing-input search: {n} fresh polytomous inputs, none violates the property")
+    return None
+
+
 def _solver_batch(ctx):
     rng = ctx.rng
     cases = _solver_cases(rng, ctx.quick())
@@ -786,6 +844,7 @@ def _solver_batch(ctx):
         return r["min"] == want, (f"minimum over the {len(expected(c))} binary refinement pairs is {want}, "
                                   f"the solver on the polytomous input returned cost {r['min']}")
 
+    _E2E.update(impl=impl, oracle=oracle)
     ctx.dist["extended_solvers"] = {
         "cases": len(cases),
         "refinement_pairs": sum(double_fact_count(c["object"]) * double_fact_count(c["species"]) for c in cases),
